@@ -29,7 +29,7 @@ from pathlib import Path
 
 HERE = Path(__file__).resolve().parent.parent
 REPO = Path("/repo")
-ALL = ["rename", "retvar", "swapif", "unelse"]
+ALL = ["rename", "retvar", "swapif", "unelse", "logging", "annotate", "swapassign"]
 
 
 def _always_exits(stmts) -> bool:
@@ -234,7 +234,131 @@ def t_unelse(tree):
     return ast.fix_missing_locations(_UnElse().visit(tree))
 
 
-TRANSFORMS = {"rename": t_rename, "retvar": t_retvar, "swapif": t_swapif, "unelse": t_unelse}
+# --------------------------------------------------------------------------- logging / annotate / swap
+class _Log(ast.NodeTransformer):
+    """A harmless `logging.getLogger("twin").debug("...")` at the top of every function body and
+    of every loop body (module `logging` is imported at the top of each file)."""
+
+    def _stmt(self, at):
+        call = ast.parse('__import__("logging").getLogger("twin").debug("twin")').body[0]
+        return ast.copy_location(call, at)
+
+    def visit_FunctionDef(self, n):
+        self.generic_visit(n)
+        if any("njit" in ast.unparse(d) or "jit" in ast.unparse(d) for d in n.decorator_list):
+            return n
+        body = n.body
+        k = 1 if body and isinstance(body[0], ast.Expr) and isinstance(body[0].value, ast.Constant) and isinstance(body[0].value.value, str) else 0
+        n.body = body[:k] + [self._stmt(body[0])] + body[k:]
+        return n
+
+    visit_AsyncFunctionDef = visit_FunctionDef
+
+    def _loop(self, n):
+        self.generic_visit(n)
+        n.body = [self._stmt(n.body[0])] + n.body
+        return n
+
+    visit_For = visit_While = _loop
+
+
+def _in_njit(tree):
+    out = set()
+    for fn in ast.walk(tree):
+        if isinstance(fn, (ast.FunctionDef, ast.AsyncFunctionDef)) and any("jit" in ast.unparse(d) for d in fn.decorator_list):
+            for x in ast.walk(fn):
+                out.add(id(x))
+    return out
+
+
+class _LogSafe(_Log):
+    def __init__(self, skip):
+        self.skip = skip
+
+    def _loop(self, n):
+        if id(n) in self.skip:
+            return n
+        return super()._loop(n)
+
+    visit_For = visit_While = _loop
+
+
+def t_logging(tree):
+    return ast.fix_missing_locations(_LogSafe(_in_njit(tree)).visit(tree))
+
+
+class _Annotate(ast.NodeTransformer):
+    """`x = E` -> `x: object = E` for a plain local name that has no annotation anywhere in the function."""
+
+    def visit_FunctionDef(self, n):
+        self.generic_visit(n)
+        if any("jit" in ast.unparse(d) for d in n.decorator_list):
+            return n
+        annotated = {x.target.id for x in ast.walk(n) if isinstance(x, ast.AnnAssign) and isinstance(x.target, ast.Name)}
+        declared = {nm for x in ast.walk(n) if isinstance(x, (ast.Global, ast.Nonlocal)) for nm in x.names}
+        done = set()
+
+        def rec(stmts):
+            out = []
+            for st in stmts:
+                if isinstance(st, ast.Assign) and len(st.targets) == 1 and isinstance(st.targets[0], ast.Name) and st.targets[0].id not in annotated | declared | done:
+                    done.add(st.targets[0].id)
+                    out.append(ast.copy_location(ast.AnnAssign(target=st.targets[0], annotation=ast.Name(id="object", ctx=ast.Load()), value=st.value, simple=1), st))
+                    continue
+                if not isinstance(st, (ast.FunctionDef, ast.AsyncFunctionDef, ast.ClassDef)):
+                    for fld in ("body", "orelse", "finalbody"):
+                        sub = getattr(st, fld, None)
+                        if isinstance(sub, list) and sub and isinstance(sub[0], ast.stmt):
+                            setattr(st, fld, rec(sub))
+                    if isinstance(st, ast.Try):
+                        for h in st.handlers:
+                            h.body = rec(h.body)
+                out.append(st)
+            return out
+
+        n.body = rec(n.body)
+        return n
+
+    visit_AsyncFunctionDef = visit_FunctionDef
+
+
+def t_annotate(tree):
+    return ast.fix_missing_locations(_Annotate().visit(tree))
+
+
+def _pure(e) -> bool:
+    return not any(isinstance(x, (ast.Call, ast.Await, ast.Yield, ast.YieldFrom, ast.NamedExpr, ast.Subscript, ast.Attribute, ast.BinOp)) for x in ast.walk(e))
+
+
+class _SwapAssign(ast.NodeTransformer):
+    """Swap two adjacent plain assignments of constants / names to different names that do not
+    mention each other (independent by construction)."""
+
+    def generic_visit(self, node):
+        super().generic_visit(node)
+        for fld in ("body", "orelse", "finalbody"):
+            lst = getattr(node, fld, None)
+            if isinstance(lst, list) and lst and isinstance(lst[0], ast.stmt):
+                i = 0
+                while i + 1 < len(lst):
+                    a, b = lst[i], lst[i + 1]
+                    if all(isinstance(x, ast.Assign) and len(x.targets) == 1 and isinstance(x.targets[0], ast.Name) and _pure(x.value) for x in (a, b)):
+                        na, nb = a.targets[0].id, b.targets[0].id
+                        used_a = {x.id for x in ast.walk(a.value) if isinstance(x, ast.Name)}
+                        used_b = {x.id for x in ast.walk(b.value) if isinstance(x, ast.Name)}
+                        if na != nb and na not in used_b and nb not in used_a:
+                            lst[i], lst[i + 1] = b, a
+                            i += 2
+                            continue
+                    i += 1
+        return node
+
+
+def t_swapassign(tree):
+    return ast.fix_missing_locations(_SwapAssign().visit(tree))
+
+
+TRANSFORMS = {"rename": t_rename, "retvar": t_retvar, "swapif": t_swapif, "unelse": t_unelse, "logging": t_logging, "annotate": t_annotate, "swapassign": t_swapassign}
 
 
 def build(name: str, dest: Path) -> None:
